@@ -152,6 +152,8 @@ async fn run_node_async(wrap: Wrap, hist: &[Op], clock: u64, want_sample: bool) 
     let mut wb = Book::default();
     let mut seen: HashSet<String> = HashSet::new();
     let mut last_ok = false;
+    // (last_modified, operation) of the latest commit so far
+    let mut newest: Option<(chrono::DateTime<chrono::Utc>, String)> = None;
 
     for (i, op) in hist.iter().enumerate() {
         let upto = &hist[..=i];
@@ -284,6 +286,30 @@ async fn run_node_async(wrap: Wrap, hist: &[Op], clock: u64, want_sample: bool) 
                             return out;
                         }
                         out.tokens.push(h128(tok.as_bytes()));
+                        // the reference stamps every commit (copies and renames
+                        // included) with the time of the commit: no commit reports
+                        // an earlier last_modified than any commit before it
+                        if let Some((prev, by)) = &newest
+                            && wc.lm < *prev
+                        {
+                            out.violations.push(viol(
+                                wrap,
+                                upto,
+                                clock,
+                                "last_modified-before-earlier-commit",
+                                &op.kind(),
+                                format!(
+                                    "the commit of {} by {} reports last_modified {}, earlier than {} reported by the earlier commit {}",
+                                    KEYS[k as usize],
+                                    op.short(),
+                                    wc.lm.timestamp_millis(),
+                                    prev.timestamp_millis(),
+                                    by
+                                ),
+                            ));
+                            return out;
+                        }
+                        newest = Some((wc.lm, op.short()));
                         wb.commit(k, wc);
                     }
                 }
@@ -497,6 +523,7 @@ async fn run_light_async(wrap: Wrap, hist: &[Op], who: &[u8], clock: u64) -> Lig
     let mut wb = Book::default();
     let mut seen: HashSet<String> = HashSet::new();
     let mut last = String::new();
+    let mut newest: Option<(chrono::DateTime<chrono::Utc>, String)> = None;
     for (i, op) in hist.iter().enumerate() {
         let (upto, wupto) = (&hist[..=i], &who[..=i]);
         let present = rb.present(op.target());
@@ -608,6 +635,28 @@ async fn run_light_async(wrap: Wrap, hist: &[Op], who: &[u8], clock: u64) -> Lig
                         return out;
                     }
                     out.tokens.push(h128(tok.as_bytes()));
+                    if let Some((prev, by)) = &newest
+                        && wc.lm < *prev
+                    {
+                        out.violations.push(lviol(
+                            wrap,
+                            upto,
+                            wupto,
+                            clock,
+                            "last_modified-before-earlier-commit",
+                            &op.kind(),
+                            format!(
+                                "the commit of {} by {} reports last_modified {}, earlier than {} reported by the earlier commit {}",
+                                KEYS[k as usize],
+                                op.short(),
+                                wc.lm.timestamp_millis(),
+                                prev.timestamp_millis(),
+                                by
+                            ),
+                        ));
+                        return out;
+                    }
+                    newest = Some((wc.lm, op.short()));
                     wb.commit(k, wc);
                 }
             }
